@@ -36,6 +36,15 @@ CHECKS = {
  "C14": dict(cat="exploration", sec="5.14", tech="exhaustive enumeration of all short octet strings and of all single mutations of reference encodings, each decoded in a resource-limited shard process",
    text="Every octet string of length <=2 (<=3 in thorough) and, for a reference encoding of every message type, every prefix, every single-octet substitution, every bit flip and adversarial two-octet length forms are decoded by ngap.Decoder in shard processes with an address-space limit and a watchdog: no panic, allocation below 64 MiB per call, return within a 10 s horizon.",
    note="coverage-guided fuzzing (named in the property's quantifier) is another technique family and not used; allocation measured per batch and per call on suspicion"),
+ "C06": dict(cat="exploration", sec="5.6", tech="exhaustive enumeration of send histories (all operation sequences up to depth 3/4 from 7 starting COUNTs x 6 algorithm pairs) judged by an independent receiver",
+   text="Every history of up to 3 (4 in thorough) sends over 19 operations (message x header type x new-context flag), from starting COUNTs placed just before every wrap, for all six algorithm pairs, plus 600- and 65538-send linear histories and the counter type over all 2^24 values; an independent receiver (refnas/refcrypto) must verify the MAC under COUNT n-1, find the payload ciphered only under header types 2/4 and recover exactly the submitted plain message.",
+   note="refcrypto anchors as C07; two fixed key values (no key-dependent branch in the protection logic)"),
+ "C10": dict(cat="exploration", sec="5.10", tech="exhaustive enumeration of downlink histories (all sequences up to depth 3/4 incl. skipped and wrapping sequence numbers) produced by an independent AMF-side protector",
+   text="An independent AMF side protects every history of up to 3 (4) downlink messages over 25 operations (message x header type 0..4 x COUNT step +1/+2/+200/+255) for six algorithm pairs and five starting COUNTs, plus 800-message runs; the UE's NASDecode / GetNasPdu must return a message that re-encodes to exactly the protected plain bytes and its DL COUNT must equal the AMF's.",
+   note="downlink plain messages hand-encoded from TS 24.501 clause 8; UE and AMF start from the same COUNT"),
+ "C12": dict(cat="exploration", sec="5.12", tech="exhaustive enumeration of QoS-rule lengths, optional-IE subsets and bit-rate octet counts, plus all short tails / prefixes / substitutions under a watchdog in shard processes",
+   text="Accept messages built by hand per TS 24.501 8.3.2.1 (every QoS-rules length 0..1000/4000, all 2^9 optional-IE subsets in table order, IE length and value alphabets incl. octets equal to IEIs) and setup-request transfers encoded by the independent refper (every bit-rate octet count, TEID/address alphabets, IE subsets): the extractors must return exactly the encoded address/TEID/UPF; for termination every tail of <=4 octets over 12 symbols, every prefix and every single-octet substitution is run under a 10 s watchdog.",
+   note="a panic on malformed input counts as termination (per the property); EstablishPDU's return values are covered by C02"),
 }
 
 NOT_YET = {}
